@@ -520,6 +520,10 @@ def mon_malformed(ops, lines):
                 return bool((TOPIC_SHAPE if kind == "t" else SUB_SHAPE).match(unhx(tok)))
             except Exception:
                 return False
+        if k in ("CT", "GT", "DT", "PUB", "PUBN", "LTS", "LT", "LS", "CS", "GS", "DS", "PULL", "ACK", "MOD", "STATS") \
+                and code not in ("0", "3", "5", "6", None):
+            return ("C17-unexpected-status: %s answered status %s at op %d (expected OK, INVALID_ARGUMENT, NOT_FOUND or "
+                    "ALREADY_EXISTS)" % (k, code, i))
         if k in ("CT", "GT", "DT", "PUB", "PUBN", "LTS") and not shape(ot[1], "t") and code != "3":
             return "C17-code: %s with a malformed topic name answered %s" % (k, code)
         if k in ("GS", "DS", "PULL") and not shape(ot[1], "s") and code != "3":
@@ -681,6 +685,19 @@ def mon_abandon(ops, lines):
     if ops[x].split(" ")[1] in ("PUB", "PUBS") and len(held) == 2 and len(set(held.values())) > 1:
         return ("C16-partial-fanout: after the abandoned Publish the topic's two subscriptions hold %s messages - the "
                 "message reached one and not the other" % " and ".join(str(v) for v in held.values()))
+    gone = any(o.startswith("GS ") and unhx(o.split(" ")[1]).endswith(b"/s") and l.split(" ")[1:2] == ["5"]
+               for o, l in zip(ops[x + 1:], lines[x + 1:]))
+    if gone:
+        for i in range(x + 1, len(ops)):
+            ot, rt = ops[i].split(" "), lines[i].split(" ")
+            if ot[0] == "SR" and ot[1] == "7" and rt[-1] == "-":
+                return ("C12-stream-not-released: the subscription is gone after the abandoned DeleteSubscription, but the "
+                        "stream opened on it is still open (op %d)" % i)
+            if ot[0] == "JOIN" and ot[1] == "800" and rt[2:] == ["-"]:
+                return ("C12-pull-not-released: the subscription is gone after the abandoned DeleteSubscription, but the "
+                        "Pull blocked on it is still waiting (op %d)" % i)
+            if ot[0] in ("PUB", "ADV"):
+                break
     found = {}
     for i in range(x + 1, len(ops)):
         ot, rt = ops[i].split(" "), lines[i].split(" ")
@@ -1148,10 +1165,13 @@ def mon_create_delete_race(ops, lines):
     """C11 at the quiescent moments of gen.create_delete_race_cases: what the topic lists is exactly what exists
     (GetSubscription), and the topic still publishes."""
     exists = {}
+    last_pub = None
     for i, (o, r) in enumerate(zip(ops, lines)):
         ot, rt = o.split(" "), r.split(" ")
         if r.startswith("!"):
             return "C07-noanswer: op %d got %s" % (i, r[:60])
+        if ot[0] in ("BG", "DS", "CS"):
+            last_pub = None
         if ot[0] == "JOIN" and rt[2:] == ["-"]:
             return "C07-pending: call %s has no answer although the server is idle" % ot[1]
         if ot[0] == "GS":
@@ -1166,4 +1186,12 @@ def mon_create_delete_race(ops, lines):
                     return ("C16-half-created: %r exists at op %d but its topic does not list it" % (unhx(name), i))
         if ot[0] == "PUB" and rt[1:2] != ["0"]:
             return "C11-publish-fails: Publish on the live topic answered %s at op %d" % (rt[1] if len(rt) > 1 else "?", i)
+        if ot[0] == "PUB" and rt[1:2] == ["0"] and int(rt[2]) == 1:
+            last_pub = (i, rt[3])
+        if ot[0] == "PULL" and rt[1:2] == ["0"] and exists.get(ot[1]) and last_pub and last_pub[0] < i:
+            msgs, _ = parse_msgs(rt, 3, int(rt[2]))
+            if last_pub[1] not in [m[1] for m in msgs]:
+                return ("C01-not-delivered: %r exists and is listed by its topic, yet the message published at op %d "
+                        "(id %r) is not among the %d messages a Pull with room returns at op %d"
+                        % (unhx(ot[1]), last_pub[0], unhx(last_pub[1]), len(msgs), i))
     return None
